@@ -14,6 +14,6 @@ LifeSrc == { <<97, 94, 32, 98>>, <<97, 92, 32, 98>>, <<124, 97, 32, 98, 124>>, <
              <<35, 97, 58, 98, 35>>, <<34, 97, 58, 98, 34>>, <<97, 58, 98>>, <<94, 58, 97>> }
 LifeSeps2 == {<<>>, <<58>>}
 CustomOnly == [q |-> {124}, dq |-> {35}, esc |-> {94}]                      \* quick
-CustomAndStock == [q |-> {124, 39}, dq |-> {35}, esc |-> {94, 92}]          \* thorough: setting a stock value back as well
+CustomAndStock == [q |-> {124, 39}, dq |-> {35}, esc |-> {94}]              \* thorough: setting a stock value back as well
 ObsEmitHist(op, args, ret, post) == PrintT(ToJson([h |-> args, lv |-> DebugLevels]))
 ================================================================================
